@@ -23,6 +23,8 @@ impl<'a, 'b, 'c> AdtDeserializer<'a, 'b, 'c> {
         metadata: &'a AdtMetadata,
         context: &'b mut DeserializationContext<'c>,
     ) -> Result<Self> {
+        #[cfg(desert_verif)]
+        crate::verif::emit("dnew", 0, 0, metadata.version as i64, 0, "");
         Ok(Self {
             metadata,
             context,
@@ -72,6 +74,15 @@ impl<'a, 'b, 'c> AdtDeserializer<'a, 'b, 'c> {
             }
         }
 
+        #[cfg(desert_verif)]
+        crate::verif::emit(
+            "dnew",
+            stored_version as i64,
+            inputs.len() as i64,
+            metadata.version as i64,
+            0,
+            "",
+        );
         Ok(Self {
             metadata,
             context,
@@ -90,6 +101,8 @@ impl<'a, 'b, 'c> AdtDeserializer<'a, 'b, 'c> {
         field_default: Option<T>,
     ) -> Result<T> {
         if self.removed_fields.contains(field_name) {
+            #[cfg(desert_verif)]
+            crate::verif::emit("rf", 0, 0, 0, 0, field_name);
             Err(Error::FieldRemovedInSerializedVersion(
                 field_name.to_string(),
             ))
@@ -102,6 +115,8 @@ impl<'a, 'b, 'c> AdtDeserializer<'a, 'b, 'c> {
             let field_position = self.record_field_index(chunk);
             if self.stored_version < chunk {
                 // Field was not serialized
+                #[cfg(desert_verif)]
+                crate::verif::emit("rf", 1, chunk as i64, 0, 0, field_name);
                 match field_default {
                     Some(value) => Ok(value),
                     None => Err(Error::FieldWithoutDefaultValueIsMissing(
@@ -115,6 +130,15 @@ impl<'a, 'b, 'c> AdtDeserializer<'a, 'b, 'c> {
                 if has_inputs {
                     self.context.push_region(self.inputs[chunk as usize]);
                 }
+                #[cfg(desert_verif)]
+                crate::verif::emit(
+                    "rf",
+                    if self.made_optional_at.contains_key(&field_position) { 2 } else { 3 },
+                    chunk as i64,
+                    field_position.position as i64,
+                    0,
+                    field_name,
+                );
                 let result = if self.made_optional_at.contains_key(&field_position) {
                     // The field was made optional in a newer version, so we have to read Option<T>
 
@@ -143,6 +167,8 @@ impl<'a, 'b, 'c> AdtDeserializer<'a, 'b, 'c> {
         field_default: Option<Option<T>>,
     ) -> Result<Option<T>> {
         if self.removed_fields.contains(field_name) {
+            #[cfg(desert_verif)]
+            crate::verif::emit("rf", 4, 0, 0, 0, field_name);
             Ok(None)
         } else {
             let chunk = *self
@@ -155,6 +181,8 @@ impl<'a, 'b, 'c> AdtDeserializer<'a, 'b, 'c> {
             self.record_field_index(chunk);
             if self.stored_version < chunk {
                 // This field was not serialized
+                #[cfg(desert_verif)]
+                crate::verif::emit("rf", 5, chunk as i64, 0, 0, field_name);
                 match field_default {
                     Some(default_value) => Ok(default_value),
                     None => Err(Error::DeserializationFailure(format!(
@@ -168,6 +196,15 @@ impl<'a, 'b, 'c> AdtDeserializer<'a, 'b, 'c> {
                 if has_inputs {
                     self.context.push_region(self.inputs[chunk as usize]);
                 }
+                #[cfg(desert_verif)]
+                crate::verif::emit(
+                    "rf",
+                    if self.stored_version < opt_since { 6 } else { 7 },
+                    chunk as i64,
+                    0,
+                    0,
+                    field_name,
+                );
                 let result = if self.stored_version < opt_since {
                     Ok(Some(T::deserialize(self.context)?))
                 } else {
@@ -187,6 +224,8 @@ impl<'a, 'b, 'c> AdtDeserializer<'a, 'b, 'c> {
         deserialize_case: impl FnOnce(&mut DeserializationContext<'c>) -> Result<T>,
     ) -> Result<Option<T>> {
         let constructor_idx = self.read_or_get_constructor_idx()?;
+        #[cfg(desert_verif)]
+        crate::verif::emit("rc", constructor_idx as i64, case_idx as i64, 0, 0, "");
         if constructor_idx == case_idx {
             let has_inputs = !self.inputs.is_empty();
             if has_inputs {
